@@ -143,6 +143,9 @@ func IsModuleFunc(fn *ssa.Function) bool {
 	if fn == nil {
 		return false
 	}
+	if o := fn.Origin(); o != nil && o != fn {
+		fn = o // an instantiation of a generic function belongs where the generic is declared
+	}
 	if fn.Pkg != nil {
 		return strings.HasPrefix(fn.Pkg.Pkg.Path(), ModulePath)
 	}
@@ -157,6 +160,11 @@ func IsModuleFunc(fn *ssa.Function) bool {
 
 // RelPkg returns the module-relative package path of fn ("internal/validator"), or "" when not in the module.
 func RelPkg(fn *ssa.Function) string {
+	if fn != nil {
+		if o := fn.Origin(); o != nil && o != fn {
+			fn = o
+		}
+	}
 	for fn != nil && fn.Pkg == nil && fn.Parent() != nil {
 		fn = fn.Parent()
 	}
